@@ -46,6 +46,9 @@ pub enum Op {
         start: Option<u8>,
         /// end = start + e (None = default)
         end: Option<u16>,
+        /// give the flow a (unique) label
+        #[serde(default)]
+        label: bool,
     },
     ExpandFlow {
         sel: u16,
@@ -53,8 +56,16 @@ pub enum Op {
         amount: Uint128,
         short: bool,
         end_plus: Option<u16>,
+        /// name the flow by its label (when it has one) instead of its id
+        #[serde(default)]
+        by_label: bool,
     },
-    CloseFlow { sel: u16, who: Closer },
+    CloseFlow {
+        sel: u16,
+        who: Closer,
+        #[serde(default)]
+        by_label: bool,
+    },
     OpenPos { user: u8, amount: Uint128, long: bool },
     ClosePos { user: u8, long: bool },
     Snapshot,
@@ -88,11 +99,11 @@ fn funds() -> BoxedStrategy<Funds> {
 fn op() -> BoxedStrategy<Op> {
     prop_oneof![
         6 => (0u8..4, 0u8..2, gen::amount(1, 1u128 << 80), funds(), proptest::option::weighted(0.5, prop_oneof![3 => 0u8..16, 2 => 16u8..28]), proptest::option::weighted(0.6, prop_oneof![4 => 0u16..40, 2 => 170u16..400]))
-            .prop_map(|(user, asset, declared, funds, start, end)| Op::OpenFlow { user, asset, declared: Uint128::new(declared), funds, start, end }),
+            .prop_map(|(user, asset, declared, funds, start, end)| Op::OpenFlow { user, asset, declared: Uint128::new(declared), funds, start, end, label: declared % 2 == 1 }),
         6 => (any::<u16>(), any::<bool>(), gen::amount(1, 1u128 << 70), proptest::bool::weighted(0.15), proptest::option::weighted(0.5, prop_oneof![3 => 0u16..30, 1 => 150u16..300]))
-            .prop_map(|(sel, by_creator, amount, short, end_plus)| Op::ExpandFlow { sel, by_creator, amount: Uint128::new(amount), short, end_plus }),
+            .prop_map(|(sel, by_creator, amount, short, end_plus)| Op::ExpandFlow { sel, by_creator, amount: Uint128::new(amount), short, end_plus, by_label: sel & 0x100 != 0 }),
         3 => (any::<u16>(), prop_oneof![3 => Just(Closer::Creator), 2 => Just(Closer::FactoryOwner), 2 => (0u8..4).prop_map(Closer::Stranger)])
-            .prop_map(|(sel, who)| Op::CloseFlow { sel, who }),
+            .prop_map(|(sel, who)| Op::CloseFlow { sel, who, by_label: sel & 0x100 != 0 }),
         3 => (0u8..4, gen::amount(1, 1u128 << 80), any::<bool>()).prop_map(|(user, amount, long)| Op::OpenPos { user, amount: Uint128::new(amount), long }),
         1 => (0u8..4, any::<bool>()).prop_map(|(user, long)| Op::ClosePos { user, long }),
         4 => Just(Op::Snapshot),
@@ -119,6 +130,17 @@ pub fn cfg() -> BoxedStrategy<IncCfg> {
         .boxed()
 }
 
+/// the flow's id, or — when asked for and the flow has one — its (unique) label
+fn ident(f: &white_whale_std::pool_network::incentive::Flow, by_label: bool, rec: &Rec) -> white_whale_std::pool_network::incentive::FlowIdentifier {
+    match (&f.flow_label, by_label) {
+        (Some(l), true) => {
+            rec.class("flow_named_by_label");
+            white_whale_std::pool_network::incentive::FlowIdentifier::Label(l.clone())
+        }
+        _ => flow_id(f.flow_id),
+    }
+}
+
 pub struct FlowFunding;
 
 fn bal(iw: &IncWorld, a: &AssetInfo, who: &Addr) -> u128 {
@@ -131,7 +153,7 @@ impl Check for FlowFunding {
         "flow_funding_history"
     }
     fn rule(&self) -> &'static str {
-        "incentive contract created through the incentive factory (cw20 or native LP), two reward assets (native + cw20), creation fee in a different native denom, a different cw20, or the same asset as reward asset 0 (fee amounts 1, 1000, random); up to 40/120 operations {open flow with exact / fee-only / short / over-paid / no funds and default or explicit start/end (incl. a start epoch in the past and > 180 epochs), expand flow (by creator or someone else, exact or short funds, optional new end), close flow by creator / factory owner / stranger, open/close positions, snapshot, 1..60 new epochs with or without a snapshot in each, claim}; one case in ten starts with the directed shape {small staker claims, flow opened with a start epoch in the past, small staker claims one epoch later, a much larger staker who never claimed claims 1..5 epochs later}. Reference ledger outstanding[flow] is built only from transfers the harness observes: +tokens received by the contract on open/expand, −tokens paid on claims, and must equal (funded − claimed) read from the contract's storage after every step; the fee must arrive at the collector; the contract's balance of each reward asset covers the sum of outstanding; claims never exceed funded; closing pays exactly outstanding to the creator, removes the flow and is refused to strangers. Non-trivial: >= 1 expansion and >= 1 close of a flow after a claim paid something."
+        "incentive contract created through the incentive factory (cw20 or native LP), two reward assets (native + cw20), creation fee in a different native denom, a different cw20, or the same asset as reward asset 0 (fee amounts 1, 1000, random); up to 40/120 operations {open flow with exact / fee-only / short / over-paid / no funds and default or explicit start/end (incl. a start epoch in the past and > 180 epochs), expand flow (by creator or someone else, exact or short funds, optional new end; the flow named by id or by its label), close flow by creator / factory owner / stranger (likewise), open/close positions, snapshot, 1..60 new epochs with or without a snapshot in each, claim}; one case in ten starts with the directed shape {small staker claims, flow opened with a start epoch in the past, small staker claims one epoch later, a much larger staker who never claimed claims 1..5 epochs later}. Reference ledger outstanding[flow] is built only from transfers the harness observes: +tokens received by the contract on open/expand, −tokens paid on claims, and must equal (funded − claimed) read from the contract's storage after every step; the fee must arrive at the collector; the contract's balance of each reward asset covers the sum of outstanding; claims never exceed funded; closing pays exactly outstanding to the creator, removes the flow and is refused to strangers. Non-trivial: >= 1 expansion and >= 1 close of a flow after a claim paid something."
     }
     fn strategy(&self, tier: Tier) -> BoxedStrategy<Case> {
         let max_ops = tier.pick(40usize, 120usize);
@@ -153,8 +175,8 @@ impl Check for FlowFunding {
                     Op::OpenPos { user: 1, amount: Uint128::new(1_000_000), long: false },
                     Op::NewEpoch { n: 9, snapshot: true },
                     Op::Claim { user: 0 },
-                    Op::OpenFlow { user: 2, asset, declared: Uint128::new(declared), funds: Funds::Exact, start: Some(start), end: Some(end) },
-                    Op::OpenFlow { user: 3, asset, declared: Uint128::new(declared.saturating_mul(100)), funds: Funds::Exact, start: None, end: Some(30) },
+                    Op::OpenFlow { user: 2, asset, declared: Uint128::new(declared), funds: Funds::Exact, start: Some(start), end: Some(end), label: false },
+                    Op::OpenFlow { user: 3, asset, declared: Uint128::new(declared.saturating_mul(100)), funds: Funds::Exact, start: None, end: Some(30), label: true },
                     Op::NewEpoch { n: 1, snapshot: true },
                     Op::Claim { user: 0 },
                     Op::NewEpoch { n: wait, snapshot: true },
@@ -188,7 +210,7 @@ impl Check for FlowFunding {
         let fee = iw.fee_amount;
         for (step, op) in c.ops.iter().enumerate() {
             match op {
-                Op::OpenFlow { user, asset: ai, declared, funds, start, end } => {
+                Op::OpenFlow { user, asset: ai, declared, funds, start, end, label } => {
                     let who = iw.user(*user);
                     let fa = iw.flow_assets[(*ai % 2) as usize].clone();
                     let same = fa == iw.fee_asset;
@@ -244,7 +266,7 @@ impl Check for FlowFunding {
                             end_epoch: e,
                             curve: None,
                             flow_asset: asset(&fa, declared),
-                            flow_label: None,
+                            flow_label: if *label { Some(format!("label-{step}")) } else { None },
                         },
                         &coins,
                     );
@@ -303,7 +325,7 @@ impl Check for FlowFunding {
                         rec.class("flow_longer_than_180_epochs");
                     }
                 }
-                Op::ExpandFlow { sel, by_creator, amount, short, end_plus } => {
+                Op::ExpandFlow { sel, by_creator, amount, short, end_plus, by_label } => {
                     let flows = iw.flows_raw();
                     if flows.is_empty() {
                         continue;
@@ -326,7 +348,7 @@ impl Check for FlowFunding {
                     let r = iw.exec_inc(
                         &who,
                         &inc::ExecuteMsg::ExpandFlow {
-                            flow_identifier: flow_id(f.flow_id),
+                            flow_identifier: ident(&f, *by_label, rec),
                             end_epoch: e,
                             flow_asset: asset(&fa, amount),
                         },
@@ -343,7 +365,7 @@ impl Check for FlowFunding {
                     ensure!(received == amount, "step {step}: expansion of {amount} but the contract received {received}");
                     *outstanding.get_mut(&f.flow_id).unwrap() += received;
                 }
-                Op::CloseFlow { sel, who } => {
+                Op::CloseFlow { sel, who, by_label } => {
                     let flows = iw.flows_raw();
                     if flows.is_empty() {
                         continue;
@@ -358,7 +380,7 @@ impl Check for FlowFunding {
                     let fa = f.flow_asset.info.clone();
                     let cb = bal(&iw, &fa, &f.flow_creator);
                     let ib = bal(&iw, &fa, &iw.incentive);
-                    let r = iw.exec_inc(&caller, &inc::ExecuteMsg::CloseFlow { flow_identifier: flow_id(f.flow_id) }, &[]);
+                    let r = iw.exec_inc(&caller, &inc::ExecuteMsg::CloseFlow { flow_identifier: ident(&f, *by_label, rec) }, &[]);
                     match r {
                         Ok(_) => {
                             ensure!(authorised, "step {step}: {caller} closed flow {} created by {}", f.flow_id, f.flow_creator);
